@@ -24,6 +24,16 @@ class DC:
     q: str = "dq"
 
 
+class ModelAllDefaults(pydantic.BaseModel):
+    n: int = 3
+    t: str = "t"
+
+
+import typing  # noqa: E402
+
+TupleOfInt = typing.Tuple[int, ...]
+
+
 def the_dep() -> str:
     return "DEP-VALUE"
 
@@ -32,11 +42,12 @@ META = {
     "kind": "inputs",
     "engine": "E3 bounded-exhaustive enumeration of generated task signatures x call shapes through kiq -> formatter bytes -> Receiver.callback, against inspect.Signature.bind + TypeAdapter",
     "rule": (
-        "signatures: every valid def with <= 4 positional-or-keyword parameters over kinds {un-annotated, Any, int, str, "
-        "pydantic model, dataclass} followed by defaulted kinds {annotated int default, TaskiqDepends dependency, Context} and "
+        "signatures: every valid def with <= 4 positional-or-keyword parameters over kinds {un-annotated, Any, int, str, float, "
+        "Tuple[int, ...], pydantic model, model whose fields all have defaults, dataclass} followed by defaulted kinds {annotated int default, TaskiqDepends dependency, Context} and "
         "an optional keyword-only tail {annotated, un-annotated} (functions generated with exec); for each signature every "
         "split of the caller's arguments into positional prefix / keywords that Python accepts x value schemes {convertible "
-        "strings, non-convertible strings, native values, model/dataclass instances, None, alternating, one parameter omitted "
+        "strings, non-convertible strings, native values, model/dataclass instances, None, falsy non-None values (0, '', [], {}), "
+        "alternating, one parameter omitted "
         "where it has a default} x validate_params in {True, False} x serializer in {JSON, pickle}. The generated function "
         "records what it received. Reference: inspect.signature(f).bind_partial(*args, **kwargs) gives the parameter each value "
         "belongs to; expected value = TypeAdapter(annotation).validate_python(v) when that succeeds and parsing is on, else v "
@@ -52,9 +63,9 @@ META = {
     "bounds": {"quick": {"max_params": 3, "kw_tail": "<=1 for <=2 params"}, "thorough": {"max_params": 4, "kw_tail": "<=2"}},
 }
 
-FRONT = "uAisMD"  # kinds without default
+FRONT = "uAisMDfTN"  # kinds without default (f float, T Tuple[int, ...], N model whose fields all have defaults)
 BACK = "dPC"  # kinds with default (annotated default, dependency, Context)
-ANNOT = {"u": None, "A": "Any", "i": "int", "s": "str", "M": "Model", "D": "DC", "d": "int"}
+ANNOT = {"u": None, "A": "Any", "i": "int", "s": "str", "M": "Model", "D": "DC", "d": "int", "f": "float", "T": "TupleOfInt", "N": "ModelAllDefaults"}
 
 
 def signatures(tier: str) -> List[Tuple[str, str]]:
@@ -85,7 +96,7 @@ def build_function(pos: str, tail: str, rec: List[Any]) -> Any:
         names.append(nm)
         if k == "u":
             params.append(nm)
-        elif k in "AisMD":
+        elif k in "AisMDfTN":
             params.append(f"{nm}: {ANNOT[k]}")
         elif k == "d":
             params.append(f"{nm}: int = 5")
@@ -100,7 +111,7 @@ def build_function(pos: str, tail: str, rec: List[Any]) -> Any:
             names.append(nm)
             params.append(f"{nm}: int" if k == "I" else nm)
     src = f"async def gen_task({', '.join(params)}):\n    _rec.append(dict({', '.join(f'{n}={n}' for n in names)}))\n    return None\n"
-    ns = {"_rec": rec, "Any": Any, "Model": Model, "DC": DC, "TaskiqDepends": TaskiqDepends, "the_dep": the_dep,
+    ns = {"_rec": rec, "Any": Any, "Model": Model, "DC": DC, "TupleOfInt": TupleOfInt, "ModelAllDefaults": ModelAllDefaults, "TaskiqDepends": TaskiqDepends, "the_dep": the_dep,
           "Context": Context, "__name__": "mc.props.c08"}
     exec(src, ns)  # noqa: S102
     fn = ns["gen_task"]
@@ -112,6 +123,17 @@ def value_for(kind: str, scheme: str, j: int) -> Any:
     """Value the caller sends for parameter j of the given kind under a scheme."""
     if scheme == "none":
         return None
+    if scheme == "falsy":
+        # falsy but not None: conversion must still happen (0 -> 0.0, [] -> (), {} -> model with defaults)
+        return {"i": 0, "d": 0, "I": 0, "f": 0, "s": "", "M": {}, "D": {}, "N": {}, "T": []}.get(kind, [])
+    if kind in "fTN":
+        if scheme in ("conv", "alt") and (scheme == "conv" or j % 2 == 0):
+            return {"f": str(j) + ".5", "T": [str(j), j + 1], "N": {"n": str(j)}}[kind]
+        if scheme in ("nonconv", "alt"):
+            return {"f": f"x{j}", "T": f"x{j}", "N": {"n": f"bad{j}"}}[kind]
+        if scheme == "native":
+            return {"f": j + 0.25, "T": [j, j], "N": {"n": j, "t": "n"}}[kind]
+        return {"f": j, "T": [j], "N": ModelAllDefaults(n=j)}[kind]
     if scheme == "conv" or (scheme == "alt" and j % 2 == 0):
         if kind in ("M",):
             return {"x": str(10 + j), "y": f"y{j}"}
@@ -153,7 +175,7 @@ def wire_form(v: Any) -> Any:
     return v
 
 
-ANNOT_OBJ = {"A": Any, "i": int, "s": str, "M": Model, "D": DC, "d": int, "I": int}
+ANNOT_OBJ = {"A": Any, "i": int, "s": str, "M": Model, "D": DC, "d": int, "I": int, "f": float, "T": TupleOfInt, "N": ModelAllDefaults}
 _ADAPTERS: Dict[Any, Any] = {}
 
 
@@ -171,7 +193,7 @@ def expected_value(kind: str, sent: Any, validate: bool) -> Any:
         return w
 
 
-SCHEMES = ["conv", "nonconv", "native", "inst", "none", "alt"]
+SCHEMES = ["conv", "nonconv", "native", "inst", "none", "alt", "falsy"]
 
 
 def run_signature(sig: Tuple[str, str], acc: Acc, sers: List[str]) -> None:
@@ -191,9 +213,9 @@ def run_signature(sig: Tuple[str, str], acc: Acc, sers: List[str]) -> None:
     first_injected = next((j for j, k in enumerate(pos) if k in "PC"), len(pos))
     max_prefix = len([j for j in real_pos if j < first_injected])
     refsig = inspect.signature(fn)
-    if any(k in "uAU" for k in pos[:-1]) and any(k in "isMDd" for k in pos):
+    if any(k in "uAU" for k in pos[:-1]) and any(k in "isMDdfTN" for k in pos):
         first_un = next(j for j, k in enumerate(pos) if k == "u")if "u" in pos else 99
-        if any(k in "isMDd" and j > first_un for j, k in enumerate(pos)):
+        if any(k in "isMDdfTN" and j > first_un for j, k in enumerate(pos)):
             acc.count("unannotated_before_annotated")
     for ser in sers:
         sent_msgs: List[Any] = []
@@ -276,12 +298,12 @@ def run_signature(sig: Tuple[str, str], acc: Acc, sers: List[str]) -> None:
                                 continue
                             elif nm in bound.arguments:
                                 want = expected_value(k, bound.arguments[nm], validate)
-                                if validate and k in "isMDdI" and want != wire_form(bound.arguments[nm]):
+                                if validate and k in "isMDdIfTN" and want != wire_form(bound.arguments[nm]):
                                     acc.count("converted_params")
                             else:
                                 want = 5  # omitted defaulted parameter
                             if got[nm] != want or type(got[nm]) is not type(want):
-                                first_bad = "unannotated-before-annotated" if ("u" in pos[:j] or "u" in pos[j:]) and any(x in "isMDd" for x in pos) else "other"
+                                first_bad = "unannotated-before-annotated" if ("u" in pos[:j] or "u" in pos[j:]) and any(x in "isMDdfTN" for x in pos) else "other"
                                 acc.violation(
                                     f"wrong-binding-{first_bad}",
                                     f"{case}: def gen_task({_sig_text(pos, tail)}) called with args={[wire_form(a) for a in args]!r} kwargs="
@@ -312,6 +334,7 @@ def _sig_text(pos: str, tail: str) -> str:
     parts = []
     for j, k in enumerate(pos):
         parts.append({"u": f"p{j}", "A": f"p{j}: Any", "i": f"p{j}: int", "s": f"p{j}: str", "M": f"p{j}: Model", "D": f"p{j}: DC",
+                      "f": f"p{j}: float", "T": f"p{j}: Tuple[int, ...]", "N": f"p{j}: ModelAllDefaults",
                       "d": f"p{j}: int = 5", "P": f"p{j}=Depends(dep)", "C": f"p{j}: Context=Depends()"}[k])
     if tail:
         parts.append("*")
